@@ -92,6 +92,19 @@ def polish_term(polish):
     return go()
 
 
+CURRENT_V = """(** GENERATED/compiled on every run: the decidable conditions of the C02 theorems evaluated on the
+    tables dumped from the current Rust code. *)
+From DL Require Import Lib.Bytes Model.Lexer Model.DenseGen Model.C02Spec Generated.C02Tables.
+Example current_table_ok : spacing_ok tbl = true.
+Proof. vm_compute. reflexivity. Qed.
+"""
+
+CURRENT_PREC_V = """(** GENERATED/compiled on every run: the condition of the parenthesisation theorem on the dumped predicates. *)
+From DL Require Import Lib.Bytes Model.Precedence Model.C02Spec Generated.C02Tables.
+Example current_prec_ok : prec_ok ptbl = true.
+Proof. vm_compute. reflexivity. Qed.
+"""
+
 MODE_CTOR = {"S": "S_", "B0": "B0", "B1": "B1", "B2": "B2", "B3": "B3", "B4": "B4", "R": "R_", "M": "M_"}
 
 
@@ -391,6 +404,17 @@ def run(ctx):
     diffs = T.diff_frozen(tables, prec)
     ctx.cov.setdefault("streams", {})
     proofs_ok = C.proof_gate(ctx, extra_targets=["Generated/C02Tables.vo", "Model/C02Check.vo", "Model/Precedence.vo"])
+    # the decidable conditions of the theorems, re-evaluated on the tables dumped from the current code
+    for fname, text, name in (("C02Current.v", CURRENT_V, "current_table_ok: spacing_ok tbl = true"),
+                              ("C02CurrentPrec.v", CURRENT_PREC_V, "current_prec_ok: prec_ok ptbl = true")):
+        path = os.path.join(C.COQ, "Generated", fname)
+        T.write_if_changed(path, text)
+        with C.Lock("coq"):
+            rc, log = C.coqc_file(path, timeout=900)
+        ctx.obligation("Example %s (condition of the theorem on the tables dumped from the current code, vm_compute)" % name,
+                       rc == 0, "" if rc == 0 else log[-600:] + " | changed vs frozen: " + "; ".join(diffs[:20]))
+        if rc != 0:
+            proofs_ok = False
     exe = build_evaluator()
     ctx.cov["streams"]["tables vs frozen copy"] = dict(evaluations=128 * 128 * 6, distinct_nontrivial=0,
                                                        changed_entries=diffs[:40])
